@@ -20,7 +20,7 @@ RULE = (
     "descriptor classes, ordered pairs (t, t') of orderings of the position "
     "contents x all parity pairs (incl. None vs specified) x placeholder "
     "patterns (none / one None / two None) x id renamings (small, negative "
-    "shuffled, large). 5-position classes: all 120x120 pairs; 6-position: "
+    "shuffled, large, ids with coinciding Python hashes). 5-position classes: all 120x120 pairs; 6-position: "
     "identity row x 720 plus sampled rows (all 720 rows in thorough); "
     "Octahedral: identity x 5040 plus sampled rows. Each pair checks eq vs "
     "geometric oracle, symmetry of ==, hash agreement, None-parity rule; each "
@@ -47,6 +47,9 @@ RENAMINGS = {
     "small": lambda i: i,
     "negshuf": lambda i: (-3, 7, -1, 0, 12, -8, 5)[i],
     "large": lambda i: (2**40 + 3, 5, 2**33, 999999937, 1, 2**31, 77)[i],
+    # ids whose Python hashes coincide: hash(-1) == hash(-2),
+    # hash(k) == hash(k + 2**61 - 1), hash(2**61 - 1) == hash(0)
+    "hashcollide": lambda i: (-1, -2, 8, 8 + 2**61 - 1, 0, 2**61 - 1, 5)[i],
 }
 
 
@@ -200,8 +203,8 @@ def run(ctx):
             total_rows_all = False
         pars = _parities(cls) + (None,)
         for pattern in ("none", "one", "two"):
-            rens = (("small", "negshuf", "large") if pattern == "none"
-                    else ("negshuf",))
+            rens = (("small", "negshuf", "large", "hashcollide")
+                    if pattern == "none" else ("negshuf", "hashcollide"))
             if ctx.quick and n >= 6 and pattern != "none":
                 rens = ("negshuf",)
             for ren in rens:
